@@ -21,7 +21,7 @@ ENTRY = {
         ],
         "design_ref": "DESIGN.md 3 (C17), 2.6",
         "technique": "Coq invariant proofs over a timed transition system with nondeterministic select (all schedules) + differential trace-inclusion correspondence with the real AggregationLoop under testing/synctest",
-        "level_text": "Machine-checked proofs (Coq 8.16.1, every theorem closed under the global context) about an executable timed model of the lazy/normal aggregation loop, for ALL notification instants, production durations, interval ratios and select schedules: C17_on_demand_full (a notification delivered while the loop waits is followed by a production start within max(block time, 1 ms)); C17_no_lost_wakeup_full (a notification arriving at any instant of a production, or still in the channel when it starts, is followed by a FURTHER production starting after its end and no later than start+block time, or end+1 ms after an overrun); C17_idle_full (no notifications: productions exactly on the lazy-timer chain from the loop's first select) and C17_idle_bound_full (any notifications: at least one production per idle interval); C17_first_block_full; C17_normal_full (normal mode: exactly the block-timer chain whatever the notifications); C17_never_blocks_full (some select case or notification is always enabled). The rate clause is NOT true of the code: C17_rate_refuted is a kernel-checked witness (lazy interval 1 s < block time 2 s: productions 1 s apart) and the harness reproduces it on the real loop (known finding rate-lazy-interval-below-block-time); C17_rate_partial proves start-to-start distance >= block time under the guard `normal mode or block time <= lazy interval`, including all notification/timer coincidences. Bounded response is stated in the model's urgency semantics (time cannot pass a ready select case). The model is tied to /repo on every run by trace inclusion on exact virtual timestamps; an independent Go oracle evaluates rate, on-demand, lost wake-up, idle and normal-mode periodicity directly on the observed starts.",
+        "level_text": "Machine-checked proofs (Coq 8.16.1, every theorem closed under the global context) about an executable timed model of the lazy/normal aggregation loop, for ALL notification instants, production durations, interval ratios and select schedules: C17_on_demand_full (a notification delivered while the loop waits is followed by a production start within max(block time, 1 ms)); C17_no_lost_wakeup_full (a notification arriving at any instant of a production, or still in the channel when it starts, is followed by a FURTHER production starting after its end and no later than start+block time, or end+1 ms after an overrun); C17_idle_full (no notifications: productions exactly on the lazy-timer chain from the loop's first select) and C17_idle_bound_full (any notifications: at least one production per idle interval); C17_first_block_full; C17_normal_full (normal mode: exactly the block-timer chain whatever the notifications); C17_never_blocks_full (some select case or notification is always enabled). The rate clause is NOT true of the code: C17_rate_refuted is a kernel-checked witness (lazy interval 1 s < block time 2 s: productions 1 s apart) and the harness reproduces it on the real loop (known finding rate-lazy-interval-below-block-time; recorded, not repaired: clamping the lazy interval to the block time contradicts the pinned test block.TestLazyAggregationLoop_LazyTimerTrigger, which configures lazy interval 50 ms < block time 200 ms and expects the lazy timer to fire); C17_rate_partial proves start-to-start distance >= block time under the guard `normal mode or block time <= lazy interval`, including all notification/timer coincidences. Bounded response is stated in the model's urgency semantics (time cannot pass a ready select case). The model is tied to /repo on every run by trace inclusion on exact virtual timestamps; an independent Go oracle evaluates rate, on-demand, lost wake-up, idle and normal-mode periodicity directly on the observed starts.",
         "level_note": "Trusted: Coq kernel + vm_compute; the hand-written model is tied to the code only by the differential check (300 schedules quick / 6400 thorough); synctest's virtual clock stands for real time (no scheduling latency, no wall-clock drift); publishBlock is a sleeping recorder; only production start instants are compared (not which timer fired, not txsAvailable); publishBlock errors / cancellation are outside the model.",
     },
 }
